@@ -1,3 +1,4 @@
+import Swat4.Lemmas.FactsExtra11
 import Swat4.Lemmas.StoreRefine
 import Swat4.Lemmas.StoreDrv
 import Swat4.Lemmas.QueueRefine
